@@ -30,8 +30,9 @@ def dump_impl(v, depth=0):
     return ["?", repr(v)]
 
 
-def load(mm, text, timeout=5):
-    """-> ("accept", dump, model) | ("reject", (line, col), None) | ("semantic", msg, None) | ("crash", msg, None)"""
+def load(mm, text, timeout=5, _retry=True):
+    """-> ("accept", dump, model) | ("reject", (line, col), None) | ("semantic", msg, None) | ("crash", msg, None)
+    A timeout is only reported if it repeats with a 6x larger budget (stalls of the sandbox are not hangs)."""
     from textx.exceptions import TextXSyntaxError, TextXSemanticError
 
     try:
@@ -42,8 +43,10 @@ def load(mm, text, timeout=5):
         return "reject", (e.line, e.col), None
     except TextXSemanticError as e:
         return "semantic", "%s [%s]" % (e.message, e.err_type), None
-    except CaseTimeout:
-        return "crash", "timeout (hang)", None
+    except CaseTimeout as e:
+        if _retry:
+            return load(mm, text, timeout * 6, _retry=False)
+        return "crash", "timeout (hang) at " + str(e)[-700:], None
     except RecursionError:
         return "crash", "RecursionError", None
     except Exception as e:
